@@ -25,7 +25,7 @@ RULE = (
     "(carrier, character classes present in the identifier, outcome)."
 )
 SHARDS = {"quick": 16, "thorough": 16}
-TIMEOUT = {"quick": 400, "thorough": 3600}
+TIMEOUT = {"quick": 400, "thorough": 7200}
 MIN_EVALS = {"quick": 20000, "thorough": 150000}
 EXHAUSTIVE = {"quick": True, "thorough": True}
 ASSUMPTIONS = [
@@ -451,7 +451,7 @@ def identifiers(ctx):
             if s.strip():
                 ids.append(s)
     rng = ctx.rng("ids")
-    for _ in range(300 if ctx.quick else 6000):
+    for _ in range(300 if ctx.quick else 50000):
         ids.append("".join(rng.choice(ALPHA + EXTRA) for _ in range(rng.randint(4, 12))))
     ids += INJECTIONS
     return [i for i in ids if i.strip()]
